@@ -51,6 +51,9 @@ use sorters::SorterParserError;
 use splitter::Splitter;
 use std::cell::RefCell;
 use std::fmt::Error as FormatError;
+#[cfg(yift_jawk_verif)]
+use crate::verif::read_dir;
+#[cfg(not(yift_jawk_verif))]
 use std::fs::read_dir;
 use std::io::Error as IoEror;
 use std::io::Read;
